@@ -17,56 +17,6 @@ namespace CtyModel
 namespace D03b
 open Value SetImpl
 
-mutual
-/-- a well-formed type (`Ty.wf`) in which no capsule type occurs -/
-def capFree : Ty → Bool
-  | .capsule _ => false
-  | .list e | .set e | .map e => capFree e
-  | .tuple ts => capFreeL ts
-  | .object ns ts os => ns.length == ts.length && os.length == ts.length && Ty.strictAsc ns && capFreeL ts
-  | _ => true
-def capFreeL : List Ty → Bool
-  | [] => true
-  | t :: ts => capFree t && capFreeL ts
-end
-
-mutual
-/-- `set e` read as `list e`, at every depth -/
-def enc : Ty → Ty
-  | .set e => .list (enc e)
-  | .list e => .list (enc e)
-  | .map e => .map (enc e)
-  | .tuple ts => .tuple (encL ts)
-  | .object ns ts os => .object ns (encL ts) os
-  | t => t
-def encL : List Ty → List Ty
-  | [] => []
-  | t :: ts => enc t :: encL ts
-end
-
-/-- the specification of `setRules{e}.Less` on transliterated members -/
-def lessEnc (e : Ty) : Payload → Payload → Bool :=
-  if e.isPrim then primLessB e else compLessB (enc e)
-
-mutual
-/-- a set node becomes the list of its members in `Less` order -/
-def canon : Ty → Payload → Payload
-  | t, .marked m r => .marked m (canon t r)
-  | .list e, .seq vs => .seq (canonAll e vs)
-  | .tuple ts, .seq vs => .seq (canonZip ts vs)
-  | .map e, .smap ks vs => .smap ks (canonAll e vs)
-  | .object _ ts _, .smap ks vs => .smap ks (canonZip ts vs)
-  | .set e, .sset _ vs => .seq (sortStable (lessEnc e) (canonAll e vs))
-  | _, p => p
-termination_by structural _ p => p
-def canonAll : Ty → List Payload → List Payload
-  | _, [] => []
-  | e, v :: vs => canon e v :: canonAll e vs
-def canonZip : List Ty → List Payload → List Payload
-  | t :: ts, v :: vs => canon t v :: canonZip ts vs
-  | _, vs => vs
-end
-
 theorem canonAll_eq_map (e : Ty) : ∀ vs, canonAll e vs = vs.map (canon e)
   | [] => rfl
   | v :: vs => by simp [canonAll, canonAll_eq_map e vs]
